@@ -245,6 +245,22 @@ def check(env, rep, tier):
                             ok_false = False
                     else:
                         ok_true = ok_false = False
+            # who may touch the reply: besides the three direct stores, set_content_format is the only callee handed the packet
+            touch = []
+            for bb in af["blocks"]:
+                t = bb["term"]
+                if t["k"] != "call" or bb.get("cleanup"):
+                    continue
+                c = t.get("resolved") or t.get("callee") or {}
+                atys = []
+                for a_ in t["args"]:
+                    if a_["k"] in ("copy", "move") and not a_["place"]["p"]:
+                        atys.append(prog.types[af["locals"][a_["place"]["l"]]["ty"]]["s"])
+                if any(x in ("&mut packet::Packet", "&mut response::CoapResponse") for x in atys) and c.get("path") != "packet::Packet::set_content_format":
+                    touch.append(c.get("path"))
+            rep.ob("C07.6", "touches-only", not touch,
+                   "apply_from_error hands the reply to %s: more than the code, the diagnostic payload and the content format can change "
+                   "(options the handler had set are lost or altered)" % touch, site6)
             rep.ob("C07.6", "true-path", ok_true and n_true >= 1,
                    "apply_from_error: a path returning true does not (only) set code := Response(error.code), Content-Format and payload := error.message on an existing response", site6)
             rep.ob("C07.6", "false-path", ok_false, "apply_from_error: a path returning false modifies the reply", site6)
